@@ -2144,6 +2144,26 @@ RULES = {
 }
 
 
+def _r9(name):
+    def f(out):
+        import pyrules9
+        import sys as _sys
+        return getattr(pyrules9, name)(out, _sys.modules[__name__])
+    f.__name__ = name
+    return f
+
+
+for _p, _names in {
+    "C01": ["rule_py_extents_agree", "rule_py_time_counts_in_own_unit", "rule_py_struct_formats_little_endian"],
+    "C03": ["rule_py_extents_agree", "rule_py_time_counts_in_own_unit", "rule_py_struct_formats_little_endian", "rule_py_flag_named_only_when_contained"],
+    "C14": ["rule_py_struct_formats_little_endian", "rule_py_time_counts_in_own_unit"],
+    "C02": ["rule_py_flag_named_only_when_contained"],
+    "C16": ["rule_py_extents_agree"],
+    "C17": ["rule_py_extents_agree"],
+}.items():
+    RULES.setdefault(_p, []).extend(_r9(n) for n in _names)
+
+
 def run(prop, tier, repo, go_tables=None):
     out = Out(repo)
     out.go = go_tables or {}
